@@ -38,6 +38,7 @@ def run(ck, tier):
     ck.rule("R-C12-chunklocal", "the slice given to run_on_chunk is an item of iter_chunks(); run_on_chunk hands Pattern::matches and match_to_lint only sub-slices of that chunk; match_to_lint bodies read `source` only through spans derived from the matched tokens")
     ck.rule("R-C12-rebase", "cached pattern lints are re-based symmetrically by the chunk start (rule instance of R-C05-key (d))")
     ck.rule("R-C12-condense", "the condensing passes only extend a kept token's span and remove tokens (rule instances of R-C02-condense)")
+    ck.rule("R-C12-lexlocal", "token boundaries are decided from the front: no function in lex_token's table (nor a helper that receives the uncut remaining input) scans that input from its end (rev / rposition / rfind / last / ends_with / next_back ...); otherwise text arbitrarily far behind a token - in a later paragraph - changes how it is lexed")
     ck.not_decided += ["whether each of the 24 hand-written rule structs ignores everything beyond a paragraph break (they read neighbouring tokens by index)", "document-level passes other than the condensing ones", "quote pairing (excluded by the property's premise)"]
     p = facts.load()
     byk = fns_by_key(p)
@@ -154,6 +155,7 @@ def run(ck, tier):
         else:
             ok_n += 1
     ck.proved(rule, "match_to_lint:source-through-matched-spans", "", "%d of %d match_to_lint bodies read `source` only through spans derived from (or helpers that also receive) the matched tokens" % (ok_n, len(impls)))
+    _lexlocal(ck, p, byk)
     # shared rule instances
     c05._key(c05._Sub(_only(ck, "chunk-cache:rebase"), "R-C12-rebase", ""), p, byk)
     c02._condense(c05._Sub(ck, "R-C12-condense", ""), p, byk)
@@ -162,3 +164,93 @@ def run(ck, tier):
 def _only(ck, keep):
     from .c03 import _Only
     return _Only(ck, keep)
+
+
+BACKSCAN = {"rev", "rposition", "rfind", "rfind_map", "next_back", "nth_back", "rfold", "try_rfold", "last", "ends_with", "strip_suffix",
+            "split_last", "rsplit", "rsplitn", "rsplit_once", "rchunks", "rchunks_exact", "last_mut", "split_last_mut", "rsplit_mut"}
+
+
+def _unbounded_roots(f, pv, op, unb, depth=0, seen=None):
+    """does the operand's value reach one of the parameters in `unb` (the uncut remaining input) without
+    passing a cut that bounds its right end (Index with Range / RangeTo / RangeInclusive / RangeToInclusive)?"""
+    seen = set() if seen is None else seen
+    for o in flatten(pv.trace_operand(op)):
+        if o in seen:
+            continue
+        seen.add(o)
+        if o[0] == "arg" and o[1] in unb:
+            return True
+        if o[0] == "call" and depth < 8:
+            t = f.blocks[o[1]]["t"]
+            nm = last(norm(o[3] or o[2] or ""))
+            if nm in ("index", "index_mut", "get", "get_unchecked") and len(t["args"]) > 1:
+                ity = f.local_tystr(place_of(t["args"][1])[0]) if place_of(t["args"][1]) else ""
+                if "Range" in ity and "RangeFrom" not in ity and "RangeFull" not in ity:
+                    continue          # right end bounded: what follows is not the uncut input any more
+                if _unbounded_roots(f, pv, t["args"][0], unb, depth + 1, seen):
+                    return True
+                continue
+            if nm in ("split_at", "take", "split_first", "first_chunk"):
+                continue
+            for a in t["args"]:
+                if _unbounded_roots(f, pv, a, unb, depth + 1, seen):
+                    return True
+    return False
+
+
+def _lexlocal(ck, p, byk):
+    from .c01 import _fnitem_of
+    rule = "R-C12-lexlocal"
+    fs = byk.get("harper_core::lexing::lex_token")
+    if not ck.anchor(rule, "lexing::lex_token", fs):
+        return
+    f = fs[0]
+    table = None
+    for b in f.blocks:
+        for sx in b["s"]:
+            if sx["k"] == "assign" and sx["rv"]["k"] == "agg" and sx["rv"].get("agg") == "array":
+                names = [_fnitem_of(f, o) for o in sx["rv"]["ops"]]
+                if names and all(names) and len(names) >= 5:
+                    table = names
+    if table is None:
+        ck.refuted(rule, "anchor-missing:lexer-table", f.span, "the array of lexer functions in lex_token was not found")
+        return
+    ck.floor(rule, "entries of the lexer table", len(table), 14)
+    # worklist: (function, set of parameters that hold the uncut remaining input)
+    todo = [(nm, frozenset([1])) for nm in table]
+    done = {}
+    n_scans = 0
+    while todo:
+        nm, unb = todo.pop()
+        if nm in done and unb <= done[nm]:
+            continue
+        done[nm] = done.get(nm, frozenset()) | unb
+        unb = done[nm]
+        g = p.fns.get(nm)
+        if g is None:
+            continue
+        ck.saw(g)
+        bad = []
+        for body in with_closures(p, g):
+            if body is not g:
+                continue            # closures see the input only element-wise
+            pv = Prov(body)
+            for bi, t in body.calls():
+                m = method(t)
+                if m in BACKSCAN and t["args"]:
+                    n_scans += 1
+                    if _unbounded_roots(body, pv, t["args"][0], unb):
+                        bad.append((m, t["ln"]))
+                inst = t["f"].get("inst") or ""
+                h = p.fns.get(inst)
+                if h is not None and h.name.startswith("harper_core::lexing::") and h.get("kind") not in ("Closure",):
+                    hu = frozenset(i + 1 for i, a in enumerate(t["args"]) if _unbounded_roots(body, pv, a, unb))
+                    if hu:
+                        todo.append((h.name, hu))
+        key = "entry:%s" % last(nm)
+        if bad:
+            ck.refuted(rule, key, g.loc(bad[0][1]), "scans the uncut remaining input from its end (%s): the token it returns depends on text arbitrarily far behind it, e.g. in the next paragraph" % ", ".join(sorted({m for m, _ in bad})))
+        else:
+            ck.proved(rule, key, g.span, "no scan from the end of the uncut input (parameters holding it: %s)" % sorted(unb))
+    ck.extra["lexlocal_functions"] = len(done)
+    ck.extra["lexlocal_backscans_seen"] = n_scans
